@@ -8,8 +8,8 @@ import (
 
 func main() {
 	mon.Main(mon.Spec{
-		Prop: "C03",
-		Rule: "case = generated RV64IMA program (10-60 instructions: ALU/M mix, loads and stores of all widths at overlapping, misaligned offsets of a 64-byte data window straddling image data and unmapped memory, AMO/LR/SC, CSR, fences, branches and jal to valid instruction starts incl. backward ones, jalr to computed valid/misaligned/out-of-range targets), assembled exactly like cmd/mltwist (code image -> parser.Parse -> deps.NewCode -> emulator over Overlay(Bytes(image), Sparse)), some runs with pre-populated registers/memory; up to 200 steps compared after every step; non-trivial = program with a load that partially overlaps an earlier store and a taken branch, distinct by listing",
+		Prop:        "C03",
+		Rule:        "case = generated RV64IMA program (10-60 instructions: ALU/M mix, loads and stores of all widths at overlapping, misaligned offsets of a 64-byte data window straddling image data and unmapped memory, AMO/LR/SC, CSR, fences, branches and jal to valid instruction starts incl. backward ones, jalr to computed valid/misaligned/out-of-range targets), assembled exactly like cmd/mltwist (code image -> parser.Parse -> deps.NewCode -> emulator over Overlay(Bytes(image), Sparse)), some runs with pre-populated registers/memory; up to 200 steps compared after every step; non-trivial = program with a load that partially overlaps an earlier store and a taken branch, distinct by listing",
 		Explanation: "oracle: refrv reference machine whose initial registers/bytes are the same deterministic provider function the emulator is given; after every step IP, every register known to the emulator, every byte touched, and the Step record (register/memory reads and writes with values, as sets; reads that cannot influence state are optional) are compared; Step must fail exactly when IP is not at a decoded instruction; a run ends when the reference stores into the code section",
 		Assumptions: []string{"refrv reference interpreter", "CSR register keys follow the product's csr<N> spelling", "code image built through the verif hook elf.VerifNewMemory"},
 		Cases: func(t string) int {
